@@ -186,9 +186,13 @@ CHECKS = {
     "C11": (LAY + "refusal conditions of String._rewrite proved; image-at-the-raise compared for every malformed operation",
             "Kernel-checked theorems: C11_string_too_large / C11_capacity_too_large (refused exactly when more than the stored size is "
             "needed), C11_string_fit_frame (an accepted assignment stays inside the slot's fixed extent and keeps the size word), "
-            "C11_string_fit_value, C11_scalar_never_overruns. Known finding O-13 (non-atomic dict update of a nested struct) is "
+            "C11_string_fit_value, C11_scalar_never_overruns. Index refusals: C11_index_refused_iff (`bound_check` - the definition the "
+            "executable reader calls - refuses exactly the tuples with more coordinates than axes or a coordinate outside [0, dim)), "
+            "C11_full_index_accepted_iff (a full tuple is accepted iff it is a valid index), C11_accepted_index_inside (the item "
+            "address of an accepted index leaves room for the whole item inside the array's own extent, any shape and axis order). "
+            "Known finding O-13 (non-atomic dict update of a nested struct) is "
             "listed in known_findings.json.",
-            "Partial: index/shape/union-membership/context refusals are decision logic compared by the tie (exception class and "
+            "Partial: shape / length / union-membership / context / offset refusals are decision logic compared by the tie (exception class and "
             "buffer image at the raise), not theorems.",
             "7/C11"),
     "C08": ("Lean 4 proof: two's-complement relative-offset codec (encode/decode round trip over Int), null encodings, growth as prefix "
